@@ -40,8 +40,33 @@ class LP(FP):
             self.props.add(a)
         return a
     props = set()
+    aliases = {}
+    def unary(self):
+        if self.peek() == ("op", "!"):
+            self.eat()
+            a = self.unary()
+            return f"(RI.notW {self.W} {a})"
+        if self.peek() == ("op", "*"):
+            # `*r` for a reference `r`: the place it refers to (an element of the slice, or a header field)
+            self.eat()
+            v = self.eat("id")
+            if v in self.aliases:
+                arr, i = self.aliases[v]
+                return f"(RI.idx {arr} {i})"
+            return v
+        return self.atom()
+    def cast(self):
+        a = self.postfix()
+        while self.at("as"):
+            self.eat()
+            ty = self.eat("id")
+            if ty not in WIDTH:
+                raise TieError(f"cast to {ty}")
+            if WIDTH[ty] < 64:
+                a = f"({a} % {2 ** WIDTH[ty]})"
+        return a
     def postfix(self):
-        a = self.atom()
+        a = self.unary()
         while True:
             if self.peek() == ("op", ".") and self.peek(1)[0] == "id" and self.peek(2) != ("op", "("):
                 # field of a header view (`s.bits`)
@@ -141,6 +166,11 @@ class SP:
                 p.eat()
             x = p.eat("id")
             p.eat("op", "=")
+            if self.at("p_remove") and p.peek(1) == ("op", "("):
+                p.eat(); p.eat()
+                k = p.expr(); p.eat("op", ","); arr = p.eat("id"); p.eat("op", ","); off = p.expr(); p.eat("op", ")")
+                p.eat("op", ";")
+                return ("callrm", x, k, arr, off)
             e = p.expr()
             p.eat("op", ";")
             return ("let", x, e)
@@ -149,6 +179,24 @@ class SP:
             e = p.expr()
             p.eat("op", ";")
             return ("return", e)
+        if self.at("p_remove") and p.peek(1) == ("op", "("):
+            p.eat(); p.eat()
+            k = p.expr(); p.eat("op", ","); arr = p.eat("id"); p.eat("op", ","); off = p.expr(); p.eat("op", ")")
+            p.eat("op", ";")
+            return ("callrm", "_", k, arr, off)
+        if p.peek() == ("op", "*") and p.peek(1)[0] == "id" and p.peek(2) == ("op", "=") and p.peek(3) != ("op", "="):
+            p.eat(); v = p.eat("id"); p.eat()
+            e = p.expr()
+            p.eat("op", ";")
+            if v in p.aliases:
+                arr, i = p.aliases[v]
+                return ("setidx", arr, i, e)
+            return ("assign", v, e)
+        if p.peek()[0] == "id" and p.peek(1) == ("op", ".") and p.peek(2)[0] == "id" and p.peek(3) == ("op", "-") and p.peek(4) == ("op", "="):
+            v = p.eat("id"); p.eat(); f = p.eat("id"); p.eat(); p.eat()
+            e = p.expr()
+            p.eat("op", ";")
+            return ("assign", f"{v}_{f}", f"({v}_{f} - {e})")
         if self.at("panic") or self.at("unreachable"):
             kind = p.eat("id")
             p.eat("op", "!")
@@ -183,9 +231,13 @@ class SP:
             p.eat("op", "("); v = p.eat("id"); p.eat("op", ")")
             p.eat("op", "=")
             if ctor == "Some":
-                arr = p.eat("id"); p.eat("op", "."); p.eat("id", "get"); p.eat("op", "(")
+                arr = p.eat("id"); p.eat("op", "."); m = p.eat("id"); p.eat("op", "(")
+                if m not in ("get", "get_mut"):
+                    raise TieError(f"if let Some(..) = {arr}.{m}")
                 i = p.expr(); p.eat("op", ")")
                 scrut = ("get", arr, i)
+                if m == "get_mut":
+                    p.aliases = dict(p.aliases); p.aliases[v] = (arr, i)
             elif ctor == "LookedUp::KeyFound":
                 scrut = ("found", p.expr())
             else:
@@ -260,10 +312,17 @@ class Gen:
         self.nloops = 0
         self.pure = pure          # a function of `&self`: `return e` is just the value (a `bool`)
         self.props = props or set()
+        self.boolvars = set()
+        self.szvar = None         # `&mut self` arms: the header's member count is returned with the answer
     def value(self, e):
-        if not self.pure:
-            return f"(Except.ok ({e}, a))"
-        return f"(decide {e})" if e in self.props else e
+        v = f"(decide {e})" if e in self.props else e
+        if self.pure:
+            return v
+        if self.szvar:
+            return f"(Except.ok (({v}, {self.szvar}), a))"
+        return f"(Except.ok ({e}, a))"
+    def cond(self, c):
+        return f"({c} = true)" if c in self.boolvars else c
     def ty(self, x):
         return dict(self.params).get(x, "Nat")
     def comp(self, stmts, scope, tail):
@@ -275,7 +334,16 @@ class Gen:
         s, rest = stmts[0], stmts[1:]
         k = s[0]
         if k == "let":
+            if s[2] in self.props:
+                self.boolvars.add(s[1])
+                return f"(let {s[1]} := decide {s[2]}; {self.comp(rest, scope + [s[1]], tail)})"
             return f"(let {s[1]} := {s[2]}; {self.comp(rest, scope + [s[1]], tail)})"
+        if k == "callrm":
+            _, x, key, arr, off = s
+            if x != "_":
+                self.boolvars.add(x)
+            return (f"(match p_remove_{self.suffix} {key} {arr} {off} with | Except.error err => Except.error err "
+                    f"| Except.ok ({x}, {arr}) => {self.comp(rest, scope + ([x] if x != '_' else []), tail)})")
         if k == "assign":
             return f"(let {s[1]} := {s[2]}; {self.comp(rest, scope, tail)})"
         if k == "setidx":
@@ -303,7 +371,7 @@ class Gen:
             arms, els = s[1], s[2]
             t = self.comp((els or []) + rest, scope, tail)
             for c, b in reversed(arms):
-                t = f"(if {c} then {self.comp(b + rest, scope, tail)} else {t})"
+                t = f"(if {self.cond(c)} then {self.comp(b + rest, scope, tail)} else {t})"
             return t
         if k == "for":
             _, v, lo, hi, body = s
@@ -366,6 +434,36 @@ def gen_contains(src, W, suffix):
         out.append(f"def contains_{arm}_{suffix} {sig} : Bool := {top}")
     return out
 
+def gen_remove(src, W, suffix):
+    ty = "u64" if W == 64 else "u32"
+    m = re.search(r'\n    pub fn remove\(&mut self, e: %s\) -> bool \{' % ty, src)
+    if not m:
+        raise TieError(f"cannot find remove ({suffix})")
+    body = body_of(src, m.end() - 1)[0]
+    if not re.search(r'match self\.internal_mut\(\) \{\s*InternalMut::Empty => false,\s*InternalMut::Stack\(t\) => \{', body):
+        raise TieError(f"remove ({suffix}): shape of the Empty / Stack arms")
+    out = []
+    for arm, pat, params, szvar in (
+            ("dense", r'InternalMut::Dense \{ sz, a \} => \{', [("e", "Nat"), ("sz", "Nat"), ("a", "Array Nat")], "sz"),
+            ("heap", r'InternalMut::Heap \{ s, a \} => \{', [("e", "Nat"), ("s_sz", "Nat"), ("s_bits", "Nat"), ("a", "Array Nat")], "s_sz"),
+            ("big", r'InternalMut::Big \{ s, a \} => \{', [("e", "Nat"), ("s_sz", "Nat"), ("s_bits", "Nat"), ("a", "Array Nat")], "s_sz")):
+        mm = re.search(pat, body)
+        if not mm:
+            raise TieError(f"remove ({suffix}): {arm} arm")
+        ab = body_of(body, mm.end() - 1)[0]
+        sp = SP(lex(ab), W, suffix)
+        sp.p.aliases = {}
+        stmts = sp.block()
+        if sp.p.peek()[0] != "eof":
+            raise TieError(f"remove {arm}: trailing tokens {sp.p.peek()}")
+        g = Gen(f"remove_{arm}_{suffix}", params, "Except String ((Bool × Nat) × Array Nat)", props=sp.p.props)
+        g.szvar = szvar
+        g.suffix = suffix
+        top = g.comp(stmts, [x for x, _ in params], None)
+        sig = " ".join(f"({x} : {t})" for x, t in params)
+        out.append(f"def remove_{arm}_{suffix} {sig} : Except String ((Bool × Nat) × Array Nat) := {top}")
+    return out
+
 def gen_loops(s64, s32):
     out = ["import TinysetModel.Generated.Fns",
            "/-! GENERATED by /verif/tools/gen_loops.py from src/setu64.rs and src/setu32.rs — do not edit.",
@@ -383,6 +481,8 @@ def gen_loops(s64, s32):
            "  | .ok (.found i, _) => some i",
            "  | _ => none",
            "def keyFound (r : Except String (Looked × Array Nat)) : Bool := (foundIdx r).isSome",
+           "/-- `!x` of a `w`-bit unsigned value -/",
+           "def notW (w x : Nat) : Nat := 2 ^ w - 1 - x",
            "end RI"]
     for src, W, suffix in ((s64, 64, "64"), (s32, 32, "32")):
         ty = "u64" if W == 64 else "u32"
@@ -391,6 +491,7 @@ def gen_loops(s64, s32):
         out += gen_fn(src, W, suffix, "p_insert", r'\nfn p_insert\(k: %s, a: &mut \[%s\], offset: %s\) -> usize \{' % (ty, ty, ty), P, "Except String (Nat × Array Nat)")
         out += gen_fn(src, W, suffix, "p_remove", r'\nfn p_remove\(k: %s, a: &mut \[%s\], offset: %s\) -> bool \{' % (ty, ty, ty), P, "Except String (Bool × Array Nat)")
         out += gen_contains(src, W, suffix)
+        out += gen_remove(src, W, suffix)
     out.append("end Gen")
     return "\n".join(out) + "\n"
 
